@@ -80,3 +80,48 @@ func extErrorsIs(e *Exec, fr *frame, pos token.Pos, fn *ssa.Function, a []Value)
 	}
 	return e.ts.False
 }
+
+func init() {
+	externals["errors.As"] = extErrorsAs
+}
+
+// extErrorsAs: errors.As(err, target) with target a non-nil pointer to an interface or to a
+// concrete error type; walks the Unwrap chain, honours an As(any) bool method.
+func extErrorsAs(e *Exec, fr *frame, pos token.Pos, fn *ssa.Function, a []Value) Value {
+	err, tgt := a[0].(IfaceV), a[1].(IfaceV)
+	if tgt.t == nil {
+		panic(targetPanic{msg: "errors: target cannot be nil", pos: e.posStr(pos)})
+	}
+	pt, ok := tgt.t.Underlying().(*types.Pointer)
+	p, isPtr := tgt.v.(PtrV)
+	if !ok || !isPtr || p.isNil() {
+		panic(targetPanic{msg: "errors: target must be a non-nil pointer", pos: e.posStr(pos)})
+	}
+	want := pt.Elem()
+	wantIface, _ := want.Underlying().(*types.Interface)
+	for depth := 0; depth < 16 && err.t != nil; depth++ {
+		match := false
+		if wantIface != nil {
+			match = types.Implements(err.t, wantIface)
+		} else {
+			match = types.Identical(err.t, want)
+		}
+		if match {
+			if wantIface != nil {
+				e.store(fr, nil, want, p, err)
+			} else {
+				e.store(fr, nil, want, p, err.v)
+			}
+			return e.ts.True
+		}
+		if f := e.ifaceMethod(err, "As"); f != nil && f.Signature.Params().Len() == 1 && f.Signature.Results().Len() == 1 {
+			r := e.call(fr, pos, f, []Value{err.v, tgt})
+			if t, ok := r.(*Term); ok && (t.IsTrue() || (!t.IsFalse() && e.decide(t))) {
+				return e.ts.True
+			}
+		}
+		next, _ := e.errUnwrap(fr, pos, err).(IfaceV)
+		err = next
+	}
+	return e.ts.False
+}
